@@ -176,7 +176,7 @@ class BigMapType(MapType, prim='big_map', args_len=2):
             diff['key_type'] = key_type  # type: ignore
             diff['value_type'] = val_type  # type: ignore
         elif action == 'copy':
-            pass  # TODO:
+            diff['source'] = str(src_ptr)  # type: ignore
 
         lazy_diff.append(
             {
